@@ -127,6 +127,13 @@ class C09(Check):
                 out.append(dict(fault=fault, pos="-", source=source, mode="centres"))
         for fault in DIR_FAULTS:
             out.append(dict(fault=fault, pos="-", source="dataframe", mode="centres"))
+            if fault != "none":  # the readers of file sources are context managers around the creation: same rules
+                out.append(dict(fault=fault, pos="-", source="hdf5" if q else "fits", mode="centres"))
+                if not q:
+                    out.append(dict(fault=fault, pos="-", source="hdf5", mode="index"))
+        # a patch whose weights sum to exactly zero (masked region): creation may refuse or succeed, but
+        # identically for every worker count and never by blocking
+        out.append(dict(fault="zero_weight_patch", pos="-", source="dataframe", mode="index"))
         # fault-free controls whose last chunk holds fewer records than there are workers
         out.append(dict(fault="none", pos="short_tail", source="dataframe", mode="centres"))
         out.append(dict(fault="none", pos="short_tail", source="dataframe" if q else "hdf5", mode="index"))
@@ -181,7 +188,8 @@ class C09(Check):
         row = POS.get(pos, 130)
         centres_deg = np.array([[10.0, -5.0], [13.0, -5.0], [16.0, -5.0]])
         violations = []
-        must_raise = fault != "none" and fault != "overwrite_valid"
+        must_raise = fault not in ("none", "overwrite_valid", "zero_weight_patch")
+        either = fault == "zero_weight_patch"
         target = work / "cache"
         kwargs = dict(ra_name="ra", dec_name="dec", weight_name="w", redshift_name="z", chunksize=chunk,
                       max_workers=nw, overwrite=False)
@@ -202,6 +210,8 @@ class C09(Check):
             cols["patch"][row] = np.nan if fault == "pid_nan" else np.inf
         elif fault.startswith("pid_"):
             cols["patch"][row] = int(fault.split("_")[1])
+        elif fault == "zero_weight_patch":
+            cols["w"][cols["patch"] == 1] = 0.0
         elif fault in ("fail_worker", "fail_writer", "fail_reader"):
             marker = float(np.deg2rad(cols["ra"][row]))
         centres = centres_deg.copy()
@@ -341,7 +351,9 @@ class C09(Check):
                 else:
                     counters["controls_returned_exact"] = counters.get("controls_returned_exact", 0) + 1
         elif kind == "raised":
-            if not must_raise:
+            if either:
+                counters["faults_raised"] = counters.get("faults_raised", 0) + 1
+            elif not must_raise:
                 violations.append((f"spurious-raise:{fault}:{mode_tag}", dict(error=f"{res['type']}: {res['message']}")))
             else:
                 counters["faults_raised"] = counters.get("faults_raised", 0) + 1
